@@ -51,7 +51,7 @@ def run(tier):
                               nontrivial=lambda c, o: o.get('build') == 'ok',
                               assumptions=['exceptions raised inside numpy/scipy/pandas kernels are outside the model; '
                                            'the generated inputs exercise them (constant series, one geo, empty groups)',
-                                           'domain: analysis window of at least n_test + 3 points'], gen_targets=searchfam.GEN_TARGETS_EXH)
+                                           'domain: analysis window of at least n_test + 3 points'], gen_targets=searchfam.GEN_TARGETS_ALL)
 
 
 def replay(data):
